@@ -457,6 +457,7 @@ def correspond(ctx):
     stream_eq(ctx, programs)
     stream_bonds(ctx, programs)
     stream_from_atom(ctx, programs)
+    stream_api(ctx, programs)
     stream_labels(ctx, programs)
     stream_query_parse(ctx, programs)
     stream_smarts(ctx, programs)
@@ -527,6 +528,24 @@ def build_queries(ctx):
         cls = QueryElement.from_atomic_number(z)
         qs.append((f'{cls.__name__}()', cls()))
         qs.append((f'{cls.__name__}(implicit_hydrogens=(0, 1))', cls(implicit_hydrogens=(0, 1))))
+    # QueryContainer API: add_atom(symbol | number | Element), add_bond(int | tuple | Bond)
+    from chython import QueryContainer
+    from chython.periodictable import Element
+    from chython.containers.bonds import Bond
+    classes = Element.__subclasses__()
+    for cls in (classes if not ctx.quick else rng.sample(classes, 25)):
+        qc = QueryContainer('api')
+        n1 = qc.add_atom(cls.__name__)
+        n2 = qc.add_atom(cls.atomic_number.fget(None))
+        n3 = qc.add_atom(cls(charge=1, is_radical=True))
+        qc.add_bond(n1, n2, 2)
+        qc.add_bond(n2, n3, (1, 2))
+        b = Bond(3)
+        qc.add_bond(n1, n3, b)
+        if [x.order for _, _, x in qc.bonds()] != [(2,), (3,), (1, 2)] and sorted(x.order for _, _, x in qc.bonds()) != [(1, 2), (2,), (3,)]:
+            ctx.fail('C08/query-api-bond-orders', f'QueryContainer.add_bond stored {[x.order for _, _, x in qc.bonds()]}', {'kind': 'eq'})
+        for n, tag in ((n1, 'symbol'), (n2, 'number'), (n3, 'Element+1 radical')):
+            qs.append((f'QueryContainer.add_atom({cls.__name__} as {tag})', qc.atom(n)))
     QC = QueryElement.from_symbol('C')
     for iso in (None, 0, 12, 13, 14):
         qs.append((f'QueryC({iso})', QC(iso)))
@@ -628,7 +647,7 @@ def stream_bonds(ctx, programs):
     for k in range(1, 4):
         cons += [(1, list(t)) for t in itertools.product([0, 1, 2, 3, 4, 5, 8, 9], repeat=k)]
     for mode, os in cons:
-        for ir in (None, True):
+        for ir in (None, True, False):
             try:
                 q = QueryBond(os[0] if mode == 0 else os, ir)
                 real = 'ok ' + ' '.join(map(str, enc_qbond(q)))
@@ -637,6 +656,18 @@ def stream_bonds(ctx, programs):
             lines.append(line('qb', [mode, tri(ir), -1] + L(os)))
             reals.append(real)
             keys.append(('qb', mode, tuple(os), ir))
+    # QueryBond.from_bond with every flag combination on every (order, ring, stereo) bond
+    for o, r, b in bonds:
+        for st in (None, False, True):
+            b._stereo = st
+            for fs in (False, True):
+                for fr in (False, True):
+                    q = QueryBond.from_bond(b, stereo=fs, in_ring=fr)
+                    lines.append(line('fb', [o, int(r), tri(st), int(fs), int(fr)]))
+                    reals.append('ok ' + ' '.join(map(str, enc_qbond(q))) + ' ' + ('1' if q == b else '0'))
+                    keys.append(('fb', o, r, st, fs, fr))
+        b._stereo = None
+    programs.add('QueryBond.from_bond')
     resp = core.run_driver('C08', lines)
     for key, real, model, ln in zip(keys, reals, resp, lines):
         ctx.count(key, n=max(1, len(real)) if key[0] in ('beq', 'beqi') else 1)
@@ -878,6 +909,219 @@ def stream_mapping(ctx, programs):
             disagree(ctx, 'get_mapping', f'{text} on {name}: real {real[:200]} model {mm[:200]}',
                      {'kind': 'match', 'smarts': text, 'mol': wire.mol_to_ints(m)})
 
+
+
+# ------------------------------------------------------------------------------------------------
+# query atoms built through the API (constructors and setters) from raw scalar / list / tuple arguments
+# ------------------------------------------------------------------------------------------------
+
+API_ATTRS = ['neighbors', 'hybridization', 'ring_sizes', 'implicit_hydrogens', 'heteroatoms']
+API_WHICH = {'neighbors': 0, 'heteroatoms': 0, 'implicit_hydrogens': 0, 'hybridization': 1, 'ring_sizes': 2}
+API_CLASSES = ['QueryC', 'AnyElement', 'ListElement', 'AnyMetal']
+
+
+def raw_ints(v):
+    if v is None:
+        return [0]
+    if isinstance(v, int):
+        return [1, v]
+    return [2, len(v)] + list(v)
+
+
+def api_make(spec):
+    """build the real query atom described by spec = {cls, via, args{name: value}, charge?, radical?, isotope?}"""
+    from chython.periodictable import AnyElement, AnyMetal, ListElement, QueryElement
+    cls = spec['cls']
+    args = {k: (tuple(v) if spec.get('tuple') and isinstance(v, list) else v) for k, v in spec['args'].items()}
+    extra = {}
+    if cls != 'AnyMetal':
+        if 'charge' in spec:
+            extra['charge'] = spec['charge']
+        if spec.get('radical'):
+            extra['is_radical'] = True
+    if spec['via'] == 'ctor':
+        kw = dict(args, **extra)
+        if cls == 'QueryC':
+            return QueryElement.from_symbol('C')(spec.get('isotope'), **kw)
+        if cls == 'AnyElement':
+            return AnyElement(**kw)
+        if cls == 'ListElement':
+            return ListElement(['C', 'N'], **kw)
+        return AnyMetal(**kw)
+    q = (QueryElement.from_symbol('C')(spec.get('isotope')) if cls == 'QueryC' else AnyElement() if cls == 'AnyElement'
+         else ListElement(['C', 'N']) if cls == 'ListElement' else AnyMetal())
+    for k, v in dict(args, **extra).items():
+        setattr(q, k, v)
+    return q
+
+
+def api_line(spec, env_ints, k):
+    cls = spec['cls']
+    head = {'QueryC': [0, 6, -1 if spec.get('isotope') is None else spec['isotope'], 0], 'AnyElement': [1, 0, -1, 0],
+            'ListElement': [2, 0, -1, 2, 6, 7], 'AnyMetal': [3, 0, -1, 0]}[cls]
+    a = spec['args']
+    return line('eqa', head + [spec.get('charge', 0), int(bool(spec.get('radical'))), -1, 0]
+                + raw_ints(a.get('neighbors')) + raw_ints(a.get('hybridization')) + raw_ints(a.get('ring_sizes'))
+                + raw_ints(a.get('implicit_hydrogens')) + raw_ints(a.get('heteroatoms')) + [k] + env_ints)
+
+
+def api_specs(ctx):
+    rng = ctx.rng
+    vals = {
+        'neighbors': [None] + list(range(-1, 16)) + [[0], [14], [0, 14], [2, 1], [1, 1], [1, 2, 3], [15], [0, 1], [3]],
+        'heteroatoms': [None] + list(range(-1, 16)) + [[0], [14], [0, 2], [2, 0], [3, 3], [15]],
+        'implicit_hydrogens': [None] + list(range(-1, 16)) + [[0], [0, 1], [4], [1, 0], [2, 2], [15]],
+        'hybridization': [None] + list(range(-1, 6)) + [[1], [4], [1, 4], [4, 1], [2, 2], [0], [5], [1, 2, 3, 4]],
+        'ring_sizes': [None] + list(range(-1, 9)) + [40, [3], [5, 6], [6, 5], [0], [0, 5], [2], [5, 5], [3, 4, 5, 6, 7], [12]],
+    }
+    specs = []
+    for cls in API_CLASSES:
+        names = ['neighbors', 'hybridization'] if cls == 'AnyMetal' else API_ATTRS
+        for name in names:
+            for v in vals[name]:
+                for via in ('ctor', 'setter'):
+                    specs.append({'cls': cls, 'via': via, 'args': {name: v}})
+                    if isinstance(v, list):
+                        specs.append({'cls': cls, 'via': via, 'args': {name: v}, 'tuple': True})
+        if cls != 'AnyMetal':
+            for c in range(-6, 7):
+                for via in ('ctor', 'setter'):
+                    specs.append({'cls': cls, 'via': via, 'args': {}, 'charge': c})
+            specs.append({'cls': cls, 'via': 'ctor', 'args': {}, 'radical': True})
+            specs.append({'cls': cls, 'via': 'setter', 'args': {'neighbors': 0}, 'radical': True, 'charge': -1})
+    for iso in (None, 0, 12, 13):
+        specs.append({'cls': 'QueryC', 'via': 'ctor', 'args': {'neighbors': 0}, 'isotope': iso})
+    # pairs / triples of attributes with boundary values
+    ok_vals = {'neighbors': [0, 1, 2, 3, 4, 14, [0, 1], [2, 3]], 'heteroatoms': [0, 1, 2, [0, 1]], 'implicit_hydrogens': [0, 1, 2, 3, 4, [0, 1]],
+               'hybridization': [1, 2, 3, 4, [1, 2]], 'ring_sizes': [0, 3, 5, 6, [5, 6]]}
+    for _ in range(250 if ctx.quick else 2500):
+        cls = rng.choice(API_CLASSES[:3])
+        names = rng.sample(API_ATTRS, rng.randint(2, 4))
+        specs.append({'cls': cls, 'via': rng.choice(['ctor', 'setter']), 'args': {n: rng.choice(ok_vals[n]) for n in names},
+                      'charge': rng.choice([0, 0, 0, 1, -1])})
+    return specs
+
+
+def stream_api(ctx, programs):
+    programs.update(['_validate / Query property setters', 'ExtendedQuery.__init__'])
+    envs = environments(ctx)
+    lines, reals, metas = [], [], []
+    cap = 300
+    for qn, spec in enumerate(api_specs(ctx)):
+        start = (qn * 131) % len(envs)
+        sub = (envs + envs)[start:start + cap]
+        env_ints = [x for k, a, _ in sub for x in k]
+        try:
+            q = api_make(spec)
+        except Exception as e:
+            real = 'err ' + type(e).__name__
+        else:
+            bits = []
+            for k, a, _ in sub:
+                try:
+                    r = q == a
+                    bits.append('1' if r is True else '0' if r is False else '?')
+                except Exception:
+                    bits.append('E')
+            real = 'ok ' + ' '.join(map(str, enc_qatom(q))) + ' | ' + ''.join(bits)
+        lines.append(api_line(spec, env_ints, len(sub)))
+        reals.append(real)
+        metas.append((spec, sub))
+    # the bare setters: stored tuple vs the model of _validate / hybridization / ring_sizes / charge
+    from chython.periodictable import AnyElement
+    vs_cases = []
+    for name, which in API_WHICH.items():
+        for v in [None] + list(range(-3, 18)) + [40, [0], [1, 0], [0, 0], [14, 0], [15], [3, 5], [5, 3], [2], [0, 3], [], [4, 4]]:
+            vs_cases.append((name, which, v))
+    for c in range(-7, 8):
+        vs_cases.append(('charge', 3, c))
+    for name, which, v in vs_cases:
+        for via in ('ctor', 'setter'):
+            try:
+                if via == 'ctor':
+                    q = AnyElement(**{name: v})
+                else:
+                    q = AnyElement()
+                    setattr(q, name, v)
+                got = getattr(q, name)
+                real = 'ok ' + ' '.join(map(str, L([got if got >= 0 else 0, -got if got < 0 else 0] if name == 'charge' else got)))
+            except Exception as e:
+                real = 'err ' + type(e).__name__
+            if v == [] and name != 'charge':
+                continue   # empty list: `tuple(sorted([]))` = () — same as None in the model; not a raw form the model distinguishes
+            lines.append(line('vs', [which] + raw_ints(v)))
+            reals.append(real)
+            metas.append(({'cls': 'AnyElement', 'via': via, 'args': {name: v}} if name != 'charge' else
+                          {'cls': 'AnyElement', 'via': via, 'args': {}, 'charge': v}, None))
+    resp = core.run_driver('C08', lines)
+    for (spec, sub), real, model in zip(metas, reals, resp):
+        ctx.count(('api', json_key(spec)), n=len(sub) if sub else 1)
+        ctx.dist('api:' + ('rejected' if real.startswith('err') else 'built'))
+        if ' '.join(real.split()) != ' '.join(model.split()):
+            disagree(ctx, 'query-api', f'{spec}: real {real[:160]} model {model[:160]}', {'kind': 'api', 'spec': spec})
+
+
+def json_key(spec):
+    import json
+    return json.dumps(spec, sort_keys=True)
+
+
+def api_doc(spec):
+    """documented meaning of an API-built query: an int is the one-element list, ring size 0 = not in a ring, None = unconstrained.
+    Returns None when the documentation says the value is invalid (then the constructor must raise)."""
+    lim = {'neighbors': (0, 14), 'heteroatoms': (0, 14), 'implicit_hydrogens': (0, 14), 'hybridization': (1, 4)}
+    cls = spec['cls']
+    d = dict(isotope=spec.get('isotope'), charge=spec.get('charge', 0), stereo=None, masked=False, mapping=None, neighbors=None,
+             hydrogens=None, rings=None, hetero=None, hyb=None, radical=bool(spec.get('radical')))
+    d['head'] = {'QueryC': ('element', 6), 'AnyElement': 'any', 'ListElement': ('list', [6, 7]), 'AnyMetal': 'metal'}[cls]
+    if not -4 <= d['charge'] <= 4:
+        return None
+    key = {'neighbors': 'neighbors', 'heteroatoms': 'hetero', 'implicit_hydrogens': 'hydrogens', 'hybridization': 'hyb', 'ring_sizes': 'rings'}
+    for name, v in spec['args'].items():
+        if v is None:
+            continue
+        if name == 'ring_sizes':
+            if isinstance(v, int):
+                if v == 0:
+                    d['rings'] = 'none'
+                elif v >= 3:
+                    d['rings'] = [v]
+                else:
+                    return None
+            else:
+                if any(x < 3 for x in v) or len(set(v)) != len(v):
+                    return None
+                d['rings'] = sorted(v) or None
+            continue
+        lo, hi = lim[name]
+        vs = [v] if isinstance(v, int) else list(v)
+        if any(x < lo or x > hi for x in vs) or len(set(vs)) != len(vs):
+            return None
+        d[key[name]] = sorted(vs) or None
+    return d
+
+
+def check_api(spec, mol):
+    """property oracle for an API-built query on every atom of mol: list of (atom, expected, got); raises if construction
+    contradicts the documentation (accepted although invalid / rejected although valid)"""
+    d = api_doc(spec)
+    try:
+        q = api_make(spec)
+    except (ValueError, TypeError) as e:
+        if d is None:
+            return []
+        raise AssertionError(f'rejected although documented as valid: {type(e).__name__}: {e}')
+    if d is None:
+        raise AssertionError('accepted although the documented range excludes it')
+    bad = []
+    for n, a in mol._atoms.items():
+        exp = oracle_match(d, oracle_attrs(mol, n))
+        if exp is None:
+            continue
+        got = (q == a) is True
+        if exp != got:
+            bad.append((n, exp, got))
+    return bad
 
 # ------------------------------------------------------------------------------------------------
 # property-level oracle (written from the documentation; never consults the Lean model)
@@ -1198,6 +1442,31 @@ def search(ctx):
                          f'{t} on {name} atom {n}: documented meaning says {"match" if exp else "no match"}, get_mapping says {"match" if got else "no match"}',
                          {'kind': 'match', 'smarts': t, 'mol': wire.mol_to_ints(m), 'atom': n})
                 break
+    # 2b. queries built through the API from scalar / list arguments (0 is a constraint, not "unspecified")
+    api_seeds = [c['spec'] for c in seeds if c.get('kind') == 'api']
+    pool = api_seeds + api_specs(ctx)
+    done = 0
+    for spec in pool:
+        if time.time() > t_end or done > 1500:
+            break
+        done += 1
+        for name, m in rng.sample(mols, min(len(mols), 4)):
+            try:
+                bad = check_api(spec, m)
+            except AssertionError as e:
+                ctx.fail('C08/query-api-domain', f'{spec}: {e}', {'kind': 'api', 'spec': spec, 'mol': wire.mol_to_ints(m)})
+                break
+            except Exception as e:
+                ctx.fail(f'C08/query-api-raises/{type(e).__name__}', f'{spec} on {name}: {e}', {'kind': 'api', 'spec': spec, 'mol': wire.mol_to_ints(m)})
+                break
+            if bad:
+                n, exp, got = bad[0]
+                ctx.fail('C08/query-api-match-differs-from-documented-meaning',
+                         f'{spec} on {name} atom {n}: documented meaning says {"match" if exp else "no match"}, == says {"match" if got else "no match"}',
+                         {'kind': 'api', 'spec': spec, 'mol': wire.mol_to_ints(m)})
+                break
+        if any(f.signature.startswith('C08/query-api') for f in ctx.failures):
+            break
     # 3. bonds: two-atom patterns, documented meaning of the bond token
     bond_search(ctx, t_end, texts)
     # 3b. cis/trans marks: a query with direction marks matches exactly the molecules of the same configuration
@@ -1341,6 +1610,22 @@ def probe(inp):
         if out[0] == 'err':
             return out[1] != 'IncorrectSmarts', f'smarts({inp["smarts"]!r}) raises {out[1]}' + (f' (from {out[2]})' if out[2] else '')
         return False, f'smarts({inp["smarts"]!r}) is accepted'
+    if kind == 'api':
+        if 'mol' in inp:
+            mol, _ = wire.ints_to_mol(inp['mol'], calc=True)
+        else:
+            from chython import smiles
+            mol = smiles(inp.get('smiles', 'C.CC.CCC.CC(C)C.CC(C)(C)C.C=O.C1CC1'))
+        try:
+            bad = check_api(inp['spec'], mol)
+        except AssertionError as e:
+            return True, f'{inp["spec"]}: {e}'
+        except Exception as e:
+            return True, f'{inp["spec"]}: raises {type(e).__name__}: {e}'
+        if bad:
+            n, exp, got = bad[0]
+            return True, f'{inp["spec"]} atom {n}: documented meaning {"match" if exp else "no match"}, == says {"match" if got else "no match"}'
+        return False, f'{inp["spec"]}: agrees with the documented meaning on every atom'
     if kind == 'cistrans':
         try:
             exp, got = cistrans_case(inp['smarts'], inp['smiles'])
